@@ -572,7 +572,6 @@ namespace V6
 
 /-- `IPv6Obj(text)` -/
 def fromStr (input : Str) : Except Err Obj :=
-  if input.length > Gen.ipv6MaxStrLen then .error .requirementFailure else
   let tmp := splitWs (strip input)
   let joined : Option Str :=
     match tmp with
@@ -582,6 +581,8 @@ def fromStr (input : Str) : Except Err Obj :=
   match joined with
   | none => .error .notImplementedError
   | some v6input =>
+    -- the length guard sees the normalised text (blanks stripped, one blank run rewritten to `/`)
+    if v6input.length > Gen.ipv6MaxStrLen then .error .requirementFailure else
     match matchV6 (strip v6input) with
     | none => .error .addressValueError
     | some (addr, masklen) => do
